@@ -244,6 +244,41 @@ func (c *Ctx) locksHeldAtUp(fn *ssa.Function, in ssa.Instruction, depth int) []l
 	if depth > 2 {
 		return held
 	}
+	if fn.Parent() != nil {
+		// a closure: the locks held wherever it is run — called in place, or handed to a
+		// first-party wrapper (withLock(func(){...})) that does nothing with it but call it
+		runs, ok := c.closureRuns(fn)
+		if !ok || len(runs) == 0 {
+			return held
+		}
+		var common []lockHeld
+		for i, r := range runs {
+			h := c.locksHeldAtUp(r.Parent(), r, depth+1)
+			var globalsOnly []lockHeld
+			for _, l := range h {
+				if l.base == nil {
+					globalsOnly = append(globalsOnly, l) // field mutexes are not translated across frames here
+				}
+			}
+			if i == 0 {
+				common = globalsOnly
+				continue
+			}
+			var keep []lockHeld
+			for _, a := range common {
+				for _, b := range globalsOnly {
+					if a.key == b.key {
+						if !b.exclusive {
+							a.exclusive = false
+						}
+						keep = append(keep, a)
+					}
+				}
+			}
+			common = keep
+		}
+		return append(held, common...)
+	}
 	sites, ok := c.staticCallers(fn)
 	if !ok {
 		return held
@@ -577,5 +612,134 @@ func (c *Ctx) invokesInScope(root *ssa.Function, method string, depth int) []sco
 			out = append(out, scopedCall{sc.call, args})
 		}
 	}
+	return out
+}
+
+// findInvokeSteps: like findSteps for interface method calls, by method name.
+func (c *Ctx) findInvokeSteps(fn *ssa.Function, method string) []stepRef {
+	var out []stepRef
+	var walk func(f *ssa.Function, via []*ssa.Call, depth int)
+	seen := map[*ssa.Function]bool{}
+	walk = func(f *ssa.Function, via []*ssa.Call, depth int) {
+		if seen[f] {
+			return
+		}
+		seen[f] = true
+		for _, ci := range callsIn(f) {
+			call, ok := ci.(*ssa.Call)
+			if !ok {
+				continue
+			}
+			if call.Call.IsInvoke() {
+				if call.Call.Method.Name() == method {
+					out = append(out, stepRef{call, append([]*ssa.Call(nil), via...)})
+				}
+				continue
+			}
+			if depth < 2 {
+				if cal := call.Call.StaticCallee(); cal != nil && IsFirstParty(cal) && cal.Blocks != nil && cal.Pkg == fn.Pkg {
+					walk(cal, append(append([]*ssa.Call(nil), via...), call), depth+1)
+				}
+			}
+		}
+	}
+	walk(fn, nil, 0)
+	return out
+}
+
+// fieldPathIn: fieldPath of v inside the step's helper, with a root that is the helper's
+// parameter resolved to the anchored function's value.
+func (c *Ctx) fieldPathIn(st stepRef, v ssa.Value) (ssa.Value, []string) {
+	root, path := fieldPath(v)
+	if root != nil {
+		root = strip(c.upIn(st, root))
+	}
+	return root, path
+}
+
+// closureRuns: the instructions at which the anonymous function fn is executed synchronously:
+// direct calls of its closure value, and the calls of parameter i inside a first-party function
+// that receives the closure as argument i and only ever calls that parameter. ok=false when the
+// closure value escapes otherwise (stored, deferred, started as a goroutine, returned).
+func (c *Ctx) closureRuns(fn *ssa.Function) (runs []ssa.Instruction, ok bool) {
+	parent := fn.Parent()
+	if parent == nil {
+		return nil, false
+	}
+	ok = true
+	eachInstr(parent, func(in ssa.Instruction) {
+		mc, isMC := in.(*ssa.MakeClosure)
+		if !isMC || mc.Fn != ssa.Value(fn) {
+			return
+		}
+		for _, r := range *mc.Referrers() {
+			switch x := r.(type) {
+			case *ssa.DebugRef:
+			case *ssa.Call:
+				if x.Call.Value == ssa.Value(mc) {
+					runs = append(runs, x)
+					continue
+				}
+				callee := x.Call.StaticCallee()
+				if callee == nil || !IsFirstParty(callee) || callee.Blocks == nil {
+					ok = false
+					continue
+				}
+				for i, a := range x.Call.Args {
+					if a != ssa.Value(mc) {
+						continue
+					}
+					if i >= len(callee.Params) {
+						ok = false
+						continue
+					}
+					p := callee.Params[i]
+					for _, pr := range *p.Referrers() {
+						switch y := pr.(type) {
+						case *ssa.DebugRef:
+						case *ssa.Call:
+							if y.Call.Value == ssa.Value(p) {
+								runs = append(runs, y)
+							} else {
+								ok = false
+							}
+						default:
+							ok = false
+						}
+					}
+				}
+			default:
+				ok = false
+			}
+		}
+	})
+	return runs, ok
+}
+
+// scopeFuncs: fn, its anonymous functions, and the first-party functions of the same package
+// it calls statically (to the given depth), with their anonymous functions.
+func scopeFuncs(fn *ssa.Function, depth int) []*ssa.Function {
+	seen := map[*ssa.Function]bool{}
+	var out []*ssa.Function
+	var walk func(f *ssa.Function, d int)
+	walk = func(f *ssa.Function, d int) {
+		if seen[f] {
+			return
+		}
+		seen[f] = true
+		out = append(out, f)
+		for _, a := range f.AnonFuncs {
+			walk(a, d)
+		}
+		if d <= 0 {
+			return
+		}
+		for _, ci := range callsIn(f) {
+			if cal := ci.Common().StaticCallee(); cal != nil && IsFirstParty(cal) && cal.Blocks != nil && cal.Pkg == fn.Pkg {
+				walk(cal, d-1)
+			}
+		}
+	}
+	walk(fn, depth)
 	return out
 }
